@@ -1,36 +1,28 @@
 (* C10 — Every call terminates: response, error, timeout, cancellation or abort.
    Only statements, each closed by [exact lemma], with Print Assumptions.
    Model: Model/CallLife.v (callers, Send, Receive, Exit/Close, Transport.Abort, Client.Abort, the
-   peer and the timers as environment). *)
+   peer and the timers as environment).  The configuration says which transports are meant:
+   g with fix_store g = true / fix_cancel g = true is the code since 8ffdf9e / 576bf91 (g31, g15);
+   g31_old is the code before (kept for the *_old_refuted theorems, the record of the repaired defects). *)
 From Coq Require Import List ZArith Bool Lia PeanoNat.
 From HV Require Import Model.Mux.
-From HV Require Import Model.CallLife Proofs.CallLifeBase Proofs.CallLifeProofs.
+From HV Require Import Model.CallLife Proofs.CallLifeBase Proofs.CallLifeProofs Proofs.CallLifeFixed.
 Import ListNotations.
 Open Scope Z_scope.
 
 (* ---------------------------------------------------------------- no stuck caller *)
-(* Full statement ("every waiting caller has an enabled completing step or an armed deadline; with
-   no deadline, a non-timer completing step") is FALSE for the code as it is: *)
-Theorem C10_no_stuck_caller_refuted :
-  exists st, run g31 (init [false]) late_store_witness = Some st /\
-    nth_error (callers st) 0 = Some parked /\
-    forall tr st', forallb (fun l => negb (outside_cancel l)) tr = true -> run g31 st tr = Some st' ->
-      nth_error (callers st') 0 = Some parked.
-Proof. exact no_stuck_caller_refuted. Qed.
-Print Assumptions C10_no_stuck_caller_refuted.
-
-(* Under the two guards (no caller registers on a connection after a rangeAndClean on it has
-   returned; no index is drawn while a call that drew it on that connection is still inside
-   conn.Transport) every waiting caller can complete at once, or its entry is in the table of a
-   connection that somebody is still going to clean or on which Receive is still reading. *)
-Theorem C10_no_stuck_caller_partial : forall g ts tr st,
-  run g (init ts) tr = Some st -> guarded (guard_step g) g (init ts) tr = true ->
+(* Every schedule in which no index is drawn while a call that drew it on that connection is still inside
+   conn.Transport: every waiting caller can complete at once (its channel is full or its context is done), or
+   its entry is in the table of a connection that somebody is still going to clean or on which Receive is still
+   reading.  No condition on when callers register any more. *)
+Theorem C10_no_stuck_caller : forall g ts tr st, fix_store g = true ->
+  run g (init ts) tr = Some st -> guarded (no_reuse_step g) g (init ts) tr = true ->
   forall k cl c i, nth_error (callers st) k = Some cl -> waiting_at (pc cl) = Some (c, i) ->
     box cl <> None \/ cancelled cl = true \/
     exists cn, nth_error (conns st) c = Some cn /\ In (i, k) (ktab cn) /\
                (closer_pending st c cn = true \/ listening cn = true).
-Proof. exact no_stuck_caller_partial. Qed.
-Print Assumptions C10_no_stuck_caller_partial.
+Proof. exact no_stuck_caller. Qed.
+Print Assumptions C10_no_stuck_caller.
 
 (* ... and each of the two is a real way out by non-timer steps: whoever is going to run
    rangeAndClean gets there by its own steps and fails the caller; *)
@@ -53,51 +45,29 @@ Proof. exact listener_rescues. Qed.
 Print Assumptions C10_listener_rescues.
 
 (* ---------------------------------------------------------------- prompt on close *)
-(* Full statement ("once Close has run, no caller registered on that connection is still waiting")
-   is FALSE: *)
-Theorem C10_prompt_on_close_refuted :
-  exists st, run g31 (init [false]) late_store_witness = Some st /\
-    (exists cn, nth_error (conns st) 0 = Some cn /\ kcleaned cn = true /\ ksock cn = true /\ ktab cn = [(1, 0%nat)]) /\
-    stuck_b st 0 = true.
-Proof. exact prompt_on_close_refuted. Qed.
-Print Assumptions C10_prompt_on_close_refuted.
-
-Theorem C10_prompt_on_close_partial : forall g ts tr st,
-  run g (init ts) tr = Some st -> guarded (fun s l => no_late_store_step s l) g (init ts) tr = true ->
+(* every schedule, no guard: once a rangeAndClean on a connection has returned nobody is registered on it *)
+Theorem C10_prompt_on_close : forall g ts tr st, fix_store g = true ->
+  run g (init ts) tr = Some st ->
   forall c cn, nth_error (conns st) c = Some cn -> kcleaned cn = true -> ktab cn = [].
-Proof. exact prompt_on_close_partial. Qed.
-Print Assumptions C10_prompt_on_close_partial.
-
-(* the guard is exact: any registration after a completed clean violates the statement at once *)
-Theorem C10_prompt_guard_exact : forall g st k cl c i cn st',
-  nth_error (callers st) k = Some cl -> pc cl = CAlloc c i -> nth_error (conns st) c = Some cn ->
-  kcleaned cn = true -> step g st (LStore k) = Some st' ->
-  exists cn', nth_error (conns st') c = Some cn' /\ kcleaned cn' = true /\ ktab cn' <> [].
-Proof. exact late_store_breaks. Qed.
-Print Assumptions C10_prompt_guard_exact.
+Proof. exact prompt_on_close. Qed.
+Print Assumptions C10_prompt_on_close.
 
 (* ---------------------------------------------------------------- no leak *)
-(* all schedules, no guard (index reuse and late registration included) *)
+(* all schedules, no guard (index reuse included), old and repaired transports alike *)
 Theorem C10_no_leak : forall g ts tr st, run g (init ts) tr = Some st -> all_done st = true ->
   (forall c cn, nth_error (conns st) c = Some cn -> ktab cn = []) /\ cancels st = [].
 Proof. exact no_leak. Qed.
 Print Assumptions C10_no_leak.
 
-(* the goroutine half of "nothing accumulates" is FALSE after Transport.Abort: *)
-Theorem C10_threads_exit_refuted :
-  exists st, run g31 (init [false]) abort_leak_witness = Some st /\
-    all_done st = true /\ pending_total st = 0%nat /\ sender_parked_forever st 0 = true /\
-    forall tr st', run g31 st tr = Some st' ->
-      exists cn, nth_error (conns st') 0 = Some cn /\ ksender cn = SIdle /\ ksock cn = true.
-Proof. exact threads_exit_refuted. Qed.
-Print Assumptions C10_threads_exit_refuted.
-
-Theorem C10_threads_exit_partial : forall g ts tr st,
-  run g (init ts) tr = Some st -> forallb not_abort tr = true ->
-  forall c cn, nth_error (conns st) c = Some cn -> ksock cn = true ->
-    kcancel cn = true /\ (ksender cn = SIdle -> exists st', step g st (LSendCtx c) = Some st').
-Proof. exact threads_exit_partial. Qed.
-Print Assumptions C10_threads_exit_partial.
+(* goroutines: once Receive is past onExit the context of both goroutines is cancelled, otherwise Receive is still
+   there to run onExit; no Send is parked for ever; a Send in its select with a cancelled context can leave *)
+Theorem C10_threads_exit : forall g ts tr st, fix_cancel g = true -> run g (init ts) tr = Some st ->
+  forall c cn, nth_error (conns st) c = Some cn ->
+    (kcancel cn = true \/ kreceiver cn = RHead \/ kreceiver cn = RRead \/ exists b, kreceiver cn = RExit (EOnExit b)) /\
+    sender_parked_forever st c = false /\
+    (kcancel cn = true -> ksender cn = SIdle -> exists st', step g st (LSendCtx c) = Some st').
+Proof. exact threads_exit. Qed.
+Print Assumptions C10_threads_exit.
 
 (* ---------------------------------------------------------------- usable after failure *)
 Theorem C10_usable_after_failure : forall g ts tr st, run g (init ts) tr = Some st ->
@@ -113,8 +83,65 @@ Theorem C10_usable_after_failure : forall g ts tr st, run g (init ts) tr = Some 
 Proof. exact usable_after_failure. Qed.
 Print Assumptions C10_usable_after_failure.
 
+(* ================================================================ THE TRANSPORTS BEFORE THE REPAIRS (g31_old) *)
+(* kept as the record of the defects: the same statements were false *)
+Theorem C10_no_stuck_caller_old_refuted :
+  exists st, run g31_old (init [false]) late_store_witness = Some st /\
+    nth_error (callers st) 0 = Some parked /\
+    forall tr st', forallb (fun l => negb (outside_cancel l)) tr = true -> run g31_old st tr = Some st' ->
+      nth_error (callers st') 0 = Some parked.
+Proof. exact no_stuck_caller_old_refuted. Qed.
+Print Assumptions C10_no_stuck_caller_old_refuted.
+
+Theorem C10_prompt_on_close_old_refuted :
+  exists st, run g31_old (init [false]) late_store_witness = Some st /\
+    (exists cn, nth_error (conns st) 0 = Some cn /\ kcleaned cn = true /\ ksock cn = true /\ ktab cn = [(1, 0%nat)]) /\
+    stuck_b st 0 = true.
+Proof. exact prompt_on_close_old_refuted. Qed.
+Print Assumptions C10_prompt_on_close_old_refuted.
+
+(* what held of the old code: under the extra guard no_late_store (exact: C10_prompt_guard_exact_old) *)
+Theorem C10_prompt_on_close_partial_old : forall g ts tr st,
+  run g (init ts) tr = Some st -> guarded (fun s l => no_late_store_step s l) g (init ts) tr = true ->
+  forall c cn, nth_error (conns st) c = Some cn -> kcleaned cn = true -> ktab cn = [].
+Proof. exact prompt_on_close_partial. Qed.
+Print Assumptions C10_prompt_on_close_partial_old.
+
+Theorem C10_prompt_guard_exact_old : forall g st k cl c i cn st',
+  fix_store g = false ->
+  nth_error (callers st) k = Some cl -> pc cl = CAlloc c i -> nth_error (conns st) c = Some cn ->
+  kcleaned cn = true -> step g st (LStore k) = Some st' ->
+  exists cn', nth_error (conns st') c = Some cn' /\ kcleaned cn' = true /\ ktab cn' <> [].
+Proof. exact late_store_breaks. Qed.
+Print Assumptions C10_prompt_guard_exact_old.
+
+Theorem C10_no_stuck_caller_partial_old : forall g ts tr st,
+  run g (init ts) tr = Some st -> guarded (guard_step g) g (init ts) tr = true ->
+  forall k cl c i, nth_error (callers st) k = Some cl -> waiting_at (pc cl) = Some (c, i) ->
+    box cl <> None \/ cancelled cl = true \/
+    exists cn, nth_error (conns st) c = Some cn /\ In (i, k) (ktab cn) /\
+               (closer_pending st c cn = true \/ listening cn = true).
+Proof. exact no_stuck_caller_partial. Qed.
+Print Assumptions C10_no_stuck_caller_partial_old.
+
+(* after Transport.Abort the Send goroutine of the closed connection stayed parked for ever *)
+Theorem C10_threads_exit_old_refuted :
+  exists st, run g31_old (init [false]) abort_leak_witness = Some st /\
+    all_done st = true /\ pending_total st = 0%nat /\ sender_parked_forever st 0 = true /\
+    forall tr st', run g31_old st tr = Some st' ->
+      exists cn, nth_error (conns st') 0 = Some cn /\ ksender cn = SIdle /\ ksock cn = true.
+Proof. exact threads_exit_old_refuted. Qed.
+Print Assumptions C10_threads_exit_old_refuted.
+
+Theorem C10_threads_exit_partial_old : forall g ts tr st,
+  run g (init ts) tr = Some st -> forallb not_abort tr = true ->
+  forall c cn, nth_error (conns st) c = Some cn -> ksock cn = true ->
+    kcancel cn = true /\ (ksender cn = SIdle -> exists st', step g st (LSendCtx c) = Some st').
+Proof. exact threads_exit_partial. Qed.
+Print Assumptions C10_threads_exit_partial_old.
+
 (* ---- non-vacuity ---- *)
-(* the guards hold on ordinary schedules: two callers on one connection, one answered, the peer
+(* the guard holds on ordinary schedules: two callers on one connection, one answered, the peer
    goes away, Receive fails and cleans, the second caller is failed, everybody returns, the next
    call dials afresh *)
 Example guards_satisfiable :
@@ -123,6 +150,7 @@ Example guards_satisfiable :
              LPeerGone 0; LRecvPoll 0; LRecvFail 0; LOnExit (WR 0); LCloseSock (WR 0); LCleanTake (WR 0); LCleanDone (WR 0);
              LSendCtx 0; LOnExit (WS 0); LTake 1; LEnd 1; LBegin 2; LDial 2] in
   guarded (guard_step g31) g31 (init [false; true; false]) tr = true /\
+  guarded (no_reuse_step g31) g31 (init [false; true; false]) tr = true /\
   match run g31 (init [false; true; false]) tr with
   | Some st => map pc (callers st) = [CDone RResp; CDone RErr; CAlloc 1 1] /\ pool st = Some 1%nat /\
                pending_total st = 0%nat
@@ -130,19 +158,32 @@ Example guards_satisfiable :
   end.
 Proof. vm_compute. repeat split; reflexivity. Qed.
 
-(* the witness of the refutations violates exactly the late-store guard, at its last step *)
-Example witness_breaks_guard :
-  guarded (fun s l => no_late_store_step s l) g31 (init [false]) late_store_witness = false /\
-  guarded (fun s l => no_late_store_step s l) g31 (init [false]) (removelast late_store_witness) = true.
-Proof. vm_compute. split; reflexivity. Qed.
+Example configurations : fix_store g31 = true /\ fix_cancel g31 = true /\ fix_store g15 = true /\ fix_cancel g15 = true /\
+                         fix_store g31_old = false /\ fix_cancel g31_old = false.
+Proof. repeat split; reflexivity. Qed.
 
-(* with a deadline armed the same caller is not lost for ever: LFire then LCancelDel complete it *)
-Example deadline_rescues_witness :
-  match run g31 (init [true]) (late_store_witness ++ [LFire 0; LCancelDel 0; LEnd 0]) with
-  | Some st => map pc (callers st) = [CDone RCancel] /\ pending_total st = 0%nat /\ cancels st = []
+(* the old witnesses on the repaired transports: the late store hands the close error to the caller, which returns;
+   after Abort Receive's onExit cancels the context and Send leaves *)
+Example late_store_schedule_repaired :
+  match run g31 (init [false]) (late_store_witness ++ [LTake 0; LEnd 0]) with
+  | Some st => map pc (callers st) = [CDone RErr] /\ pending_total st = 0%nat /\ stuck_b st 0 = false /\ cancels st = []
   | None => False
   end.
-Proof. vm_compute. repeat split; reflexivity. Qed.
+Proof. exact late_store_witness_repaired. Qed.
+
+Example abort_schedule_repaired :
+  match run g31 (init [false]) (abort_leak_witness ++ [LSendCtx 0; LOnExit (WS 0)]) with
+  | Some st => sender_parked_forever st 0 = false /\
+               match nth_error (conns st) 0 with Some cn => ksender cn = SExit EDone /\ kreceiver cn = RExit EDone | None => False end
+  | None => False
+  end.
+Proof. exact abort_leak_witness_repaired. Qed.
+
+(* the old witness violated exactly the late-store guard, at its last step *)
+Example witness_breaks_guard :
+  guarded (fun s l => no_late_store_step s l) g31_old (init [false]) late_store_witness = false /\
+  guarded (fun s l => no_late_store_step s l) g31_old (init [false]) (removelast late_store_witness) = true.
+Proof. vm_compute. split; reflexivity. Qed.
 
 (* the hypotheses of C10_closer_rescues and C10_listener_rescues are met in ordinary states *)
 Example rescues_nonvacuous :
